@@ -11,7 +11,8 @@ containers), printing per operation its result, the probe counters, and — afte
 prints the final counters and the number of cells still allocated.
 
 Operation tokens (fields separated by `:`; cat = l|c|r|x for T&, const T&, T&&, const T&&;
-tag = i|d|s|m|p; form = l|c|r|m):
+tag = i|d|s|m|p|t; form = l|c|r|m; a leading `!` runs the operation with the throwing probe `t` armed:
+its next copy construction throws):
   df:k  ca:k:src:cat  cv:k:cat:tag:code  aa:a:b:cat  av:a:cat:tag:code  rs:a  sw:a:b:free
   ds:a  pk:a:tag:code  pr:a:tag:code  vc:a:tag:form  pc:a|n:tag:const
 -/
@@ -20,10 +21,11 @@ open BFL BFL.Proto BFL.AnyBox
 
 def tagOf? : String → Option Tag
   | "i" => some .int | "d" => some .dbl | "s" => some .str | "m" => some .mat | "p" => some .probe
+  | "t" => some .thr
   | _ => none
 
 def tagStr : Tag → String
-  | .int => "i" | .dbl => "d" | .str => "s" | .mat => "m" | .probe => "p"
+  | .int => "i" | .dbl => "d" | .str => "s" | .mat => "m" | .probe => "p" | .thr => "t"
 
 def catOf? : String → Option Cat
   | "l" => some .lref | "c" => some .clref | "r" => some .rref | "x" => some .crref
@@ -64,17 +66,24 @@ def outStr : Out → String
   | .done => "ok"
   | .src v => "src=" ++ toString v.code
   | .cast r => "r=" ++ ovStr r
+  | .threw => "threw"
 
 def isProbeCopy : Ev → Bool
   | .copy .probe => true
+  | .copy .thr => true
   | _ => false
 
 def isProbeMove : Ev → Bool
   | .move .probe => true
+  | .move .thr => true
   | _ => false
 
+/-- `!op`: the operation is run with the throwing probe armed -/
+def parseXOp (tok : String) : Option (Op × Bool) :=
+  if tok.startsWith "!" then (parseOp (tok.drop 1).toString).map (·, true) else (parseOp tok).map (·, false)
+
 def countersStr (s : St) : String :=
-  "c=" ++ toString (liveOfTag s .probe) ++ "/" ++ toString (countEv s isProbeCopy) ++ "/" ++ toString (countEv s isProbeMove)
+  "c=" ++ toString (liveOfTag s .probe + liveOfTag s .thr) ++ "/" ++ toString (countEv s isProbeCopy) ++ "/" ++ toString (countEv s isProbeMove)
 
 def slotStr (s : St) (k : Nat) : String :=
   match viewSlot s k with
@@ -86,12 +95,12 @@ def slotStr (s : St) (k : Nat) : String :=
 
 def viewStr (n : Nat) (s : St) : List String := (List.range n).map (slotStr s)
 
-def runSeq (n : Nat) (full : Bool) : St → List Op → List String → List String
+def runSeq (n : Nat) (full : Bool) : St → List (Op × Bool) → List String → List String
   | s, [], acc =>
     let s' := destroyAll n s
     (("leak=" ++ toString (liveCells s').length) :: countersStr s' :: "END" :: acc).reverse
   | s, op :: rest, acc =>
-    let r := step n s op
+    let r := stepX n s op
     let acc := countersStr r.1 :: outStr r.2 :: acc
     let acc := if full || rest.isEmpty then (viewStr n r.1).reverse ++ acc else acc
     runSeq n full r.1 rest acc
@@ -102,7 +111,7 @@ def anyseq : R String := do
   let full ← (match mode with | "F" => pure true | "L" => pure false | _ => failure : R Bool)
   let toks ← get
   set ([] : List String)
-  let ops ← (toks.mapM parseOp : Option (List Op))
+  let ops ← (toks.mapM parseXOp : Option (List (Op × Bool)))
   pure (join (runSeq n full init ops []))
 
 def handle (op : String) (args : List String) : Option String :=
